@@ -8,6 +8,7 @@
    `harness codegen-all` (rust output = (all <rv> <x86> <a64>)). *)
 From Coq Require Import List ZArith NArith String Bool.
 From SCC Require Model.X86 Model.X86Io Sem.X86Sem Model.A64 Model.A64Io Sem.A64Sem.
+From SCC Require Model.LinCheck.
 From SCC Require Import Sem.LabelText.
 From SCC Require Import Base.Sexp Lang.AxSyn Sem.AxSem Model.Backend Model.RV Model.RVIo Sem.RVSem Model.RunBase.
 Import ListNotations.
@@ -120,7 +121,7 @@ Definition other_backend := (string * nat * (list Z -> obs))%type.
 
 Definition check_tuple (p : prog) (cs : list rcode) (others : list other_backend) (args : list Z) : option string * Z :=
   let ref := run_linear lin_fuel p args in
-  if comparable ref then
+  if comparable ref && LinCheck.lin_check_prog p then
     let '(got, st) := run_rv isa_outer isa_inner cs args in
     let hw := heap_high_water st in
     if negb (obs_eqb ref got)
